@@ -20,6 +20,7 @@ are only counted and must be predicted by the model.
 import json, logging, os, shutil, tempfile
 
 import common as C
+import metamorph
 
 LEVEL = "proof"
 
@@ -319,6 +320,11 @@ def gen_ssl(g):
                 src = pre + f"def open_it(host, port=443, version={form}, *rest):\n    pass\n"
                 ln = pre.count("\n") + 1
                 g.add_raw("b503", src, ln, ln, {"B503": ("MEDIUM", "MEDIUM") if isbad else None}, cfg=pc, note=p)
+                # defaults carried by positional-only parameters are function defaults too (seeded change C15-m7 paired node.args.args with the
+                # defaults and so never looked at them)
+                for sig in (f"sock, version={form}, /", f"sock, retries=3, /, version={form}", f"version={form}, /, *, other=None", f"a, /, b, version={form}, **kw"):
+                    src = pre + f"def open_it({sig}):\n    pass\n"
+                    g.add_raw("b503", src, ln, ln, {"B503": ("MEDIUM", "MEDIUM") if isbad else None}, cfg=pc, note=p + ":posonly")
         if cfg is None:
             g.add("b504", "ssl.wrap_socket", ["sock"], [], {"B504": ("LOW", "MEDIUM"), "B502": None}, note="no version")
             g.add("b504", "ssl.wrap_socket", [], [("keyfile", "'k'"), ("server_side", "True")], {"B504": ("LOW", "MEDIUM"), "B502": None}, note="no version")
@@ -610,7 +616,7 @@ def replay_witnesses(res, scratch):
             res.count("witness-not-reproduced")
 
 
-def run(res, ctx):
+def _run_main(res, ctx):
     # translate.run() (build step) silences logging process-wide via logging.disable(CRITICAL); the crash
     # monitor reads bandit's "internal error" records, so logging must be live again here
     logging.disable(logging.NOTSET)
@@ -653,3 +659,9 @@ def run(res, ctx):
     finally:
         scratch.close()
         shutil.rmtree(cfgdir, ignore_errors=True)
+
+
+def run(res, ctx):
+    _run_main(res, ctx)
+    # the neighbourhood of every construct of bandit's example files (harness/metamorph.py): model vs implementation on this family's ids
+    metamorph.family(res, ctx, C, set(MY_IDS), 700, 4000)
